@@ -134,8 +134,17 @@ func singleStoreOfAlloc(a *ssa.Alloc) ssa.Value {
 			case *ssa.DebugRef:
 			default:
 				// address escapes (call arg, field addr of struct cell, ...)
-				if _, isFA := r.(*ssa.FieldAddr); isFA {
-					ok = false
+				if fa, isFA := r.(*ssa.FieldAddr); isFA {
+					// reading a field of a local struct copy is fine; writing through it is not
+					if fa.Referrers() != nil {
+						for _, r2 := range *fa.Referrers() {
+							switch r2.(type) {
+							case *ssa.UnOp, *ssa.DebugRef:
+							default:
+								ok = false
+							}
+						}
+					}
 				} else if _, isIA := r.(*ssa.IndexAddr); isIA {
 					ok = false
 				} else {
